@@ -294,7 +294,7 @@ def _ip_job(job):
             gd = call(get_distance, code)
             if isinstance(gd, int) and gd * 1000 != dmm:
                 seams.append([min(gd * 1000, dmm), max(gd * 1000, dmm)])
-        L_.append({'tbl': tbl, 'g': g, 'age': age, 'yr': yr, 'rows': rows, 'seams': seams, 'tabd': dict(rowcodes), 'queries': [], 'codes': []})
+        L_.append({'tbl': tbl, 'g': g, 'age': age, 'yr': yr, 'rows': rows, 'seams': seams, 'tabd': dict(rowcodes), 'queries': [], 'codes': [], 'rowcodes': list(rowcodes)})
     nl = len(L_)
     for idx, (dm, code) in enumerate(dists):
         for r in range(nl):
@@ -302,9 +302,21 @@ def _ip_job(job):
             # the distance of a query is the one its spelling states (dm metres), never what get_distance made of it:
             # a misread spelling then shows as a factor / best outside its neighbours, and a spelling that cannot be
             # measured as a raised query
-            ln['queries'].append([ln['tabd'][code] if code in ln['tabd'] else dm * 1000,
-                                  L(call(athlib.wma_age_factor, ln['g'], ln['age'], code, year=ln['yr'])),
-                                  L(call(athlib.wma_world_best, ln['g'], code, year=ln['yr']))])
+            # the two questions about one distance come in three orders: factor then best; best then factor; best, a
+            # tabulated event in between (result discarded), then factor - what one call leaves behind on the shared
+            # grader must not leak into the next (seed C15-g: a "row already located" mark that a tabulated look-up
+            # in between does not clear)
+            mode = (idx + r) % 3
+            if mode == 0:
+                fa = L(call(athlib.wma_age_factor, ln['g'], ln['age'], code, year=ln['yr']))
+                wb = L(call(athlib.wma_world_best, ln['g'], code, year=ln['yr']))
+            else:
+                wb = L(call(athlib.wma_world_best, ln['g'], code, year=ln['yr']))
+                if mode == 1 and ln['rowcodes']:
+                    other = ln['rowcodes'][idx % len(ln['rowcodes'])][0]
+                    call(athlib.wma_age_factor, ln['g'], ln['age'], other, year=ln['yr'])
+                fa = L(call(athlib.wma_age_factor, ln['g'], ln['age'], code, year=ln['yr']))
+            ln['queries'].append([ln['tabd'][code] if code in ln['tabd'] else dm * 1000, fa, wb])
             ln['codes'].append(code)
     out = []
     for ln in L_:
